@@ -805,6 +805,99 @@ def e18(rep, src):
             rep.violation("E18", key, "%s does not build the one-component identifier [name]: %s" % (key, show(f.body, 100)), f.where())
 
 
+def e19(rep, src):
+    """ORDER BY direction survives parse -> render -> parse."""
+    rep.rule(
+        "E19",
+        "sort direction: the reader treats a sort key without ASC / DESC as ascending (`asc.unwrap_or(true)`, the SQL default), and the renderer writes the direction of every key explicitly "
+        "(`asc: Some(*asc)`) or omits it only for ascending keys",
+        floor=2,
+        necessary="a key read as descending when no direction is written (or rendered without direction when descending) sorts the other way: ORDER BY .. LIMIT n keeps other rows",
+    )
+    fq = src.find_fns(name="try_from_query", file="sql/relation.rs")
+    key = "try_from_query@order-by-default"
+    if len(fq) != 1:
+        rep.undecidable("E19", key, "try_from_query not found (%d)" % len(fq), "src/sql/relation.rs")
+    else:
+        f = fq[0]
+        obs = [m for m in find(f.body, "mcall") if m["m"] == "order_by" and len(m["args"]) == 2]
+        if len(obs) != 1:
+            rep.undecidable("E19", key, "expected one builder.order_by(expr, asc) in try_from_query, found %d" % len(obs), f.where())
+        else:
+            d = obs[0]["args"][1]
+            t = show(d, 0).replace(" ", "")
+            dflt = None
+            if d["k"] == "mcall" and d["m"] == "unwrap_or" and len(d["args"]) == 1 and d["args"][0]["k"] == "lit":
+                dflt = d["args"][0]["v"]
+            elif d["k"] == "mcall" and d["m"] == "unwrap_or_default":
+                dflt = False
+            elif d["k"] == "mcall" and d["m"] == "map_or" and d["args"] and d["args"][0]["k"] == "lit":
+                dflt = d["args"][0]["v"]
+            elif d["k"] == "binary" and d["op"] == "!=" and "Some(false)" in t:
+                dflt = True
+            rep.instance("E19", key, {"direction": show(d, 60), "default_when_absent": dflt})
+            if dflt is None:
+                rep.undecidable("E19", key, "cannot read the default direction of `%s`" % show(d, 60), f.where())
+            elif dflt is not True:
+                rep.violation("E19", key, "a sort key without direction is read as DESCENDING (`%s`): SQL's default is ascending, and keys rendered without direction come back reversed" % show(d, 60), f.where())
+    fm = [f for f in src.find_fns(name="map", file=RSQL) if "FromRelationVisitor" in (f.self_ty or "")]
+    key = "FromRelationVisitor::map@order-by"
+    if len(fm) != 1:
+        rep.undecidable("E19", key, "FromRelationVisitor::map not found", "src/" + RSQL)
+        return
+    sts = [x for x in find(fm[0].body, "struct") if x["path"]["segs"][-1:] == ["OrderByExpr"] and any("e" in fl for fl in x.get("fields", []))]
+    if len(sts) != 1:
+        rep.undecidable("E19", key, "expected one ast::OrderByExpr { .. } in the Map renderer, found %d" % len(sts), fm[0].where())
+        return
+    asc = [fl["e"] for fl in sts[0]["fields"] if fl["name"] == "asc"]
+    t = show(asc[0], 0).replace(" ", "") if asc else None
+
+    class _U(Exception):
+        pass
+
+    def ev(e, a):
+        """value of the rendered `asc` field (None / True / False) when the key's direction is a"""
+        k = e["k"]
+        if k == "paren":
+            return ev(e["e"], a)
+        if k == "lit" and e.get("t") == "bool":
+            return bool(e["v"])
+        if k == "path":
+            if e["p"] == "asc":
+                return a
+            if e["p"] == "None":
+                return None
+            raise _U()
+        if k == "unary":
+            v = ev(e["e"], a)
+            return v if e["op"].strip() == "*" else (not v)
+        if k == "ref":
+            return ev(e["e"], a)
+        if k == "call" and path_of(e["f"]) == "Some" and len(e["args"]) == 1:
+            return ("some", ev(e["args"][0], a))
+        if k == "mcall" and e["m"] in ("clone", "deref", "to_owned") and not e["args"]:
+            return ev(e["recv"], a)
+        if k == "mcall" and e["m"] == "then_some" and len(e["args"]) == 1:
+            return ("some", ev(e["args"][0], a)) if ev(e["recv"], a) else None
+        if k == "if" and e.get("else") is not None:
+            b = e["then"] if ev(e["cond"], a) else e["else"]
+            while b["k"] == "block" and len(b["stmts"]) == 1:
+                b = b["stmts"][0]["e"]
+            return ev(b, a)
+        raise _U()
+
+    explicit = only_asc_omitted = False
+    try:
+        vt, vf = ev(asc[0], True), ev(asc[0], False)
+        explicit = vt == ("some", True) and vf == ("some", False)
+        only_asc_omitted = vt is None and vf == ("some", False)
+    except (_U, IndexError, TypeError):
+        pass
+    rep.instance("E19", key, {"asc": t, "explicit": explicit, "omitted_only_when_ascending": only_asc_omitted})
+    if not (explicit or only_asc_omitted):
+        rep.violation("E19", key, "the direction of a sort key is rendered as `%s`: neither always explicit nor omitted only for ascending keys" % t, fm[0].where())
+
+
 def run(rep):
     rep.explanation = (
         "Table agreement and structural rules of the render / read round trip on the default (PostgreSQL) path. E3/E4 join the renderer table (variant -> translator method -> SQL spelling, read from the type-resolved MIR) "
@@ -825,5 +918,6 @@ def run(rep):
     e15(rep, src)
     e17(rep, src)
     e18(rep, src)
+    e19(rep, src)
     rep.assume("sqlparser 0.46 parses NAME(args) into ast::Expr::Function with that name, except the keyword functions listed in KEYWORD_FUNCTIONS")
     rep.assume("operators are rendered through same-named ast::BinaryOperator / UnaryOperator variants (read: function_match_constructor!)")
